@@ -7,6 +7,8 @@ returns an exit code; the CLI binary's copy is analysed because `main` lives the
                         JunitReporter::update_exit_code, main (Ok(code) -> exit(code), Err -> exit(-1))
   R-C06-test-files-considered  the --test-data suffix filter of `test` accepts every documented spelling (.json .yaml .yml .jsn, upper-case
                         .JSON .YAML): a spec file that is filtered out cannot make the run exit 7
+  R-C06-errors-not-dropped  no Result is turned into "nothing" (flatten / flat_map over Results, .ok() on an error-carrying Result,
+                        filter_map(Result::ok)) outside two reviewed places, so a failure cannot vanish before it reaches the exit code
   R-C06-folds           every exit-code accumulation: result 0 iff nothing went wrong; failures only => failure
                         code; errors only => error code; an observed error never ends in 0 (nor in 19 for validate)
 """
@@ -623,9 +625,57 @@ def test_files_considered(ctx, cr):
            else "the --test-data filter accepts %s" % sorted(got), fn=cr.fns[EX] if EX in cr.fns else None, sample={"accepts": sorted(got)})
 
 
+RESULT_ITERATORS = ("fancy_regex::CaptureMatches", "fancy_regex::Matches", "walkdir::IntoIter", "walkdir::FilterEntry", "std::fs::ReadDir", "std::io::Lines",
+                    "commands::files::Iter")
+ERRORS_DROPPED_REVIEWED = {
+    "commands::files::walk_dir": "directory entries that cannot be read (permissions, races) are skipped by design; the entries that can be read are all kept",
+    "commands::files::get_files_with_filter": "same walkdir idiom: unreadable directory entries are skipped, readable ones are all kept",
+    "<commands::test::OrderedTestDirectory as std::convert::From<walkdir::WalkDir>>::from": "same walkdir idiom in `test --dir`: unreadable directory entries are skipped",
+}
+
+
+def errors_not_dropped(ctx, crates):
+    """an error that occurred is visible in the exit code only if it is not thrown away on the way: no code of the tool turns a `Result`
+    into "nothing" — `.flatten()` / `.flat_map(..)` over Results (an Err yields no element, and with fancy_regex's capture iterator,
+    which repeats its error, never ends), `.ok()` on a Result with an error payload, `filter_map(Result::ok)` — outside the reviewed
+    places (regex constants in lazy_static initialisers; unreadable directory entries in walk_dir)."""
+    rule = "R-C06-errors-not-dropped"
+    n_fns = 0
+    for cr, kind in crates:
+        hits = {}
+        for k, f in sorted(cr.fns.items()):
+            if f.get("file", "").endswith("_tests.rs") or "::tests::" in k or "__static_ref_initialize" in k or "clap::" in k:
+                continue
+            if not (k.startswith(("commands::", "rules::", "utils::", "<commands::", "<rules::", "<utils::", "main"))):
+                continue
+            n_fns += 1
+            owner = k.split("::{closure")[0]
+            for bi, t in M.iter_calls(f):
+                d = M.norm_path(t["fn"].get("decl", ""))
+                p = M.norm_path(t["fn"].get("path", ""))
+                ga = [cr.ty_str(g) for g in t["fn"].get("ga", []) if isinstance(g, int)]
+                what = None
+                if d in ("std::iter::Iterator::flatten", "std::iter::Iterator::flat_map", "std::iter::Iterator::filter_map"):
+                    if any(g.startswith("std::result::Result<") for g in ga[1:2]) or (d.endswith("flatten") and any(g.startswith(RESULT_ITERATORS) or "Result<" in g for g in ga[:1])):
+                        what = d.split("::")[-1] + " over Results"
+                    elif d.endswith("filter_map") and any("Result<" in g and "ok" in g for g in ga):
+                        what = "filter_map(Result::ok)"
+                elif p == "std::result::Result::ok" and len(ga) == 2 and ga[1] not in ("()", "std::convert::Infallible"):
+                    what = "ok() on Result<_, %s>" % ga[1].split("::")[-1]
+                if what:
+                    hits.setdefault(owner, []).append("%s (l.%s)" % (what, t.get("ln")))
+        for owner, hs in sorted(hits.items()):
+            why = ERRORS_DROPPED_REVIEWED.get(owner)
+            ctx.ob(rule, "%s:%s:%s" % (rule, kind, owner), why is not None, ("reviewed: " + why) if why else
+                   "%s drops errors through %s: a failure there no longer reaches the exit code (and an iterator that repeats its error never ends under flatten)" % (owner.split("::")[-1], sorted(set(hs))),
+                   fn=cr.fns.get(owner))
+    ctx.ob(rule, rule + ":coverage", n_fns >= 600, "%d functions of the command and rule layers scanned for dropped Results" % n_fns)
+
+
 def run(ctx):
     cr = ctx.bin
     test_files_considered(ctx, cr)
+    errors_not_dropped(ctx, [(ctx.bin, "bin")] if ctx.bin is ctx.lib else [(ctx.lib, "lib"), (ctx.bin, "bin")])
     constants(ctx, cr)
     tables(ctx, cr)
     main_table(ctx, cr)
